@@ -8,7 +8,9 @@ import worker as W
 R = W.R; B = W.B
 from pysnark.runtime import PrivVal, LinComb
 from pysnark.boolean import LinCombBool
-from pysnark.fixedpoint import LinCombFxp
+from pysnark.fixedpoint import LinCombFxp, PrivValFxp
+import pysnark.fixedpoint as Fm
+from fractions import Fraction
 import pysnark.branching as br
 from pysnark.branching import BranchingValues, _if, _elif, _else, _endif, _while, _endwhile, _breakif, _range, _endfor, if_then_else
 
@@ -32,7 +34,23 @@ def expr_src(e, secret):
     if t in ("lt", "le", "eq", "ne", "gt", "ge"):
         op = {"lt": "<", "le": "<=", "eq": "==", "ne": "!=", "gt": ">", "ge": ">="}[t]
         return f"({expr_src(e[1], secret)} {op} {expr_src(e[2], secret)})"
+    # ---- typed values (boolean / fixed-point / list kinds; oracle only, not part of the Lean statement language)
+    if t == "fin":      # a secret fixed-point input
+        return f"finp[{e[1]}]"
+    if t == "not":
+        return f"(~{expr_src(e[1], True)})" if secret else f"(not {expr_src(e[1], False)})"
+    if t == "and":
+        return f"({expr_src(e[1], True)} & {expr_src(e[2], True)})" if secret else f"({expr_src(e[1], False)} and {expr_src(e[2], False)})"
+    if t == "list":
+        return "[" + ", ".join(expr_src(x, secret) for x in e[1]) + "]"
+    if t == "item":
+        return f"{expr_src(['var', e[1]], secret)}[{e[2]}]"
+    if t == "copy":     # native twin only: selection between lists returns a new list in the library
+        return expr_src(e[1], True) if secret else f"list({expr_src(e[1], False)})"
     raise ValueError(t)
+
+
+RAW = [False]      # probe only: pass the raw LinComb inside the LinCombBool as the `_if` condition
 
 
 def render(stmts, secret, ind, out, counter):
@@ -46,7 +64,7 @@ def render(stmts, secret, ind, out, counter):
             if secret:
                 for k, (c, body) in enumerate(arms):
                     if k == 0:
-                        out.append(f"{pad}if _if({expr_src(c, True)}, ctx=_):")
+                        out.append(f"{pad}if _if({expr_src(c, True)}{'.lc' if RAW[0] else ''}, ctx=_):")
                     else:
                         out.append(f"{pad}if _elif(lambda: {expr_src(c, True)}, ctx=_):")
                     render(body, True, ind + 1, out, counter); out.append(f"{pad}    pass")
@@ -88,6 +106,15 @@ def render(stmts, secret, ind, out, counter):
                 out.append(f"{pad}    {k} += 1")
                 if brk is not None:
                     out.append(f"{pad}    if {expr_src(brk, False)}: break")
+        elif t == "sel":      # _.x = if_then_else(cond, a, b) on already evaluated branch values of any kind
+            if secret:
+                out.append(f"{pad}_.{s[1]} = if_then_else({expr_src(s[2], True)}, {expr_src(s[3], True)}, {expr_src(s[4], True)})")
+            else:
+                out.append(f"{pad}v[{s[1]!r}] = ({expr_src(s[3], False)}) if ({expr_src(s[2], False)}) else ({expr_src(s[4], False)})")
+        elif t == "setitem":  # _.l[i] = e   (in-place update of a tracked list)
+            out.append(f"{pad}{expr_src(['var', s[1]], secret)}[{s[2]}] = {expr_src(s[3], secret)}")
+        elif t == "ref":      # r = _.l      (a reference to the list object, read after the program)
+            out.append(f"{pad}refs[{s[1]!r}] = {expr_src(['var', s[2]], secret)}")
         elif t == "ite":      # _.x = if_then_else(cond, lambda: e1, lambda: e2)   (lazily evaluated branches)
             if secret:
                 out.append(f"{pad}_.{s[1]} = if_then_else({expr_src(s[2], True)}, lambda: {expr_src(s[3], True)}, lambda: {expr_src(s[4], True)})")
@@ -103,7 +130,34 @@ def pydiv(a, b):
     return a // b
 
 
+def num(x):
+    """the exact number a (library or native) value stands for, as a string; lists element-wise"""
+    if isinstance(x, (list, tuple)): return [num(y) for y in x]
+    if isinstance(x, LinCombFxp): return str(Fraction(x.lc.value, 1 << Fm.resolution))
+    if isinstance(x, LinCombBool): return str(Fraction(x.lc.value))
+    if isinstance(x, LinComb): return str(Fraction(x.value))
+    if isinstance(x, (bool, int, float)): return str(Fraction(x))
+    return "?" + type(x).__name__
+
+
+def secrets(x):
+    if isinstance(x, (list, tuple)):
+        for y in x: yield from secrets(y)
+    elif isinstance(x, (LinCombFxp, LinCombBool)): yield x.lc
+    elif isinstance(x, LinComb): yield x
+
+
+def kind_lc(x, p):
+    """kind and canonical wire expression(s) of a final value (what must not depend on the inputs)"""
+    if isinstance(x, (list, tuple)): return [kind_lc(y, p) for y in x]
+    if isinstance(x, LinCombFxp): return "X:" + W.canon.canon_lc(x.lc.lc, p)
+    if isinstance(x, LinCombBool): return "B:" + W.canon.canon_lc(x.lc.lc, p)
+    if isinstance(x, LinComb): return "L:" + W.canon.canon_lc(x.lc, p)
+    return "I:" + repr(x)
+
+
 def plain(x):
+    if isinstance(x, list): return ("list", [plain(y)[1] for y in x])
     if isinstance(x, LinCombFxp): return ("X", x.lc.value)
     if isinstance(x, LinCombBool): return ("B", x.lc.value)
     if isinstance(x, LinComb): return ("L", x.value)
@@ -117,34 +171,54 @@ def main():
         f = line.rstrip("\n").split("|", 3)
         try:
             prog = json.loads(f[3])
+            RAW[0] = bool(prog.get("rawcond"))
             bl = int(f[2])
             p = W.DEFAULT_P
             out = {}
             # native twin
             src_n = []; render(prog["body"], False, 0, src_n, [0])
-            v = dict(prog["init"]); inp = list(prog["inputs"])
+            kinds = prog.get("kinds", {})
+            fin = [m / 4 for m in prog.get("finputs", [])]      # dyadic: exact as floats and as fixed point (resolution >= 2)
+            def initval(k, val, secret):
+                kd = kinds.get(k, "int")
+                if kd == "bool": return (PrivVal(val) == 1) if secret else bool(val == 1)
+                if kd == "fxp": return PrivValFxp(val / 4) if secret else val / 4
+                if kd == "list": return [PrivVal(x) for x in val] if secret else list(val)
+                return PrivVal(val) if secret else val
+            v = {k: initval(k, val, False) for k, val in prog["init"].items()}; inp = list(prog["inputs"]); nrefs = {}
             try:
-                exec("\n".join(src_n) or "pass", {"v": v, "inp": inp, "pydiv": pydiv})
-                out["native"] = {"status": "ok", "vars": v}
+                exec("\n".join(src_n) or "pass", {"v": v, "inp": inp, "finp": fin, "refs": nrefs, "pydiv": pydiv})
+                out["native"] = {"status": "ok", "vars": v if not prog.get("typed") else {}, "num": {k: num(x) for k, x in v.items()},
+                                 "refs": {k: num(x) for k, x in nrefs.items()}}
             except Exception as e:
                 out["native"] = {"status": type(e).__name__}
             # oblivious version on the real API
             W.reset({"p": p, "bl": bl})
             src_s = []; render(prog["body"], True, 0, src_s, [0])
-            src_s = ["def __prog(_, inp):"] + ["    " + l for l in (src_s or ["pass"])] + ["    return _"]
+            src_s = ["def __prog(_, inp, finp, refs):"] + ["    " + l for l in (src_s or ["pass"])] + ["    return _"]
             g = {"_if": _if, "_elif": _elif, "_else": _else, "_endif": _endif, "_while": _while, "_endwhile": _endwhile,
-                 "_breakif": _breakif, "_range": _range, "_endfor": _endfor, "if_then_else": if_then_else, "PrivVal": PrivVal}
+                 "_breakif": _breakif, "_range": _range, "_endfor": _endfor, "if_then_else": if_then_else, "PrivVal": PrivVal, "PrivValFxp": PrivValFxp}
             exec("\n".join(src_s), g)
             ctx = BranchingValues()
             for k, val in prog["init"].items():
-                setattr(ctx, k, PrivVal(val) if k in prog["secret_vars"] else val)
+                setattr(ctx, k, initval(k, val, True) if k in prog["secret_vars"] else val)
             sinp = [PrivVal(x) for x in prog["inputs"]]
+            sfin = [PrivValFxp(x) for x in fin]
+            srefs = {}
             try:
-                g["__prog"](ctx, sinp)
+                g["__prog"](ctx, sinp, sfin, srefs)
                 vals = {k: plain(x) for k, x in ctx.vals.items()}
                 unsat = [i for i, (a, b, c) in enumerate(B.constraints) if (W.ev(a, p) * W.ev(b, p) - W.ev(c, p)) % p != 0]
                 out["api"] = {"status": "ok", "vars": vals, "unsat": unsat[:5], "ncons": len(B.constraints), "npriv": len(B.privvals),
-                              "stack": len(ctx.stack), "guard": R.guard is not None}
+                              "stack": len(ctx.stack), "guard": R.guard is not None,
+                              "num": {k: num(x) for k, x in ctx.vals.items()}, "refs": {k: num(x) for k, x in srefs.items()},
+                              # coherence: value of every final secret == its wire expression on the recorded witness (mod p)
+                              "incoh": [k for k, x in list(ctx.vals.items()) + list(srefs.items())
+                                        if any((y.value - W.ev(y.lc, p)) % p != 0 for y in secrets(x))][:5],
+                              "var_lcs": {k: kind_lc(x, p) for k, x in list(ctx.vals.items()) + [("ref:" + k, x) for k, x in srefs.items()]},
+                              # canonical dump for the model-vs-code comparison (same text as Driver/ProtoBlock.lean prints)
+                              "canon_vars": ";".join(f"{k[1:]}={W.canon.val_str(x, p, W.CLASSES)}" for k, x in ctx.vals.items()) if not prog.get("typed") else "",
+                              "canon_state": W.state_str(p)}
             except Exception as e:
                 out["api"] = {"status": type(e).__name__, "msg": str(e)[:120], "where": traceback.format_exc().splitlines()[-3].strip()[:120]}
                 ctx.stack.clear()
